@@ -407,6 +407,7 @@ type Oblig struct {
 	Inputs  map[string]string // driver-visible input name -> SMT term
 	ValueNames []string
 	Trace string
+	WallMs int64
 	Variants func() []string // weaker queries (dangerous hypotheses dropped), tried when the full one is undecided
 }
 
